@@ -229,6 +229,15 @@ PROBE_X = ["nosuch", "h.nope", "a[9]", "nosuch.deep.er", "items[2].k"]
 PROBE_FILTER_ARGS = ["", ": 1", ": 'a'", ": 'k'", ": 'k', 1", ": X", ": 'k', X", ": 1, X", ": X, X"]
 
 
+# the missing operand X is never evaluated (PROBE_DATA: n = 3 is truthy, fa[0] is false)
+NEVER_EVALUATED = frozenset([
+    "{% if false and X == 1 %}t{% else %}f{% endif %}", "{% if n or X contains 'a' %}t{% else %}f{% endif %}",
+    "{% if fa[0] and X < 1 %}t{% else %}f{% endif %}", "{% if n or X.y == 1 and X %}t{% else %}f{% endif %}",
+    "{% if nil and (X == 1 or X contains 2) %}t{% else %}f{% endif %}", "{{ 'a' if n or X == 1 else 'b' }}",
+    "{% unless n or X > 1 %}t{% else %}f{% endunless %}", "{% if n %}t{% elsif X == 1 %}e{% endif %}",
+])
+
+
 def probe_templates(filters: list[str]) -> list[str]:
     """Every value-flow position, with X standing for the operand that is missing."""
     t = [
@@ -236,6 +245,11 @@ def probe_templates(filters: list[str]) -> list[str]:
         "{% if X %}t{% else %}f{% endif %}", "{% unless X %}t{% else %}f{% endunless %}",
         "{% if X and n %}t{% else %}f{% endif %}", "{% if n or X %}t{% else %}f{% endif %}",
         "{% if not X %}t{% else %}f{% endif %}",
+        # short-circuit: the operand that is never evaluated cannot fail
+        "{% if false and X == 1 %}t{% else %}f{% endif %}", "{% if n or X contains 'a' %}t{% else %}f{% endif %}",
+        "{% if fa[0] and X < 1 %}t{% else %}f{% endif %}", "{% if n or X.y == 1 and X %}t{% else %}f{% endif %}",
+        "{% if nil and (X == 1 or X contains 2) %}t{% else %}f{% endif %}", "{{ 'a' if n or X == 1 else 'b' }}",
+        "{% unless n or X > 1 %}t{% else %}f{% endunless %}", "{% if n %}t{% elsif X == 1 %}e{% endif %}",
         "{{ 'a' if X else 'b' }}", "{{ X if n else 'b' }}", "{{ 'a' if n else X }}", "{{ 'a' if false else X | upcase }}",
         "{{ 'a' if X || upcase }}",
         "{% for i in X %}{{ i }}{% else %}e{% endfor %}", "{% for i in a limit: X %}{{ i }}{% endfor %}",
@@ -314,8 +328,12 @@ class C16(Prop):
             for x in (xs if "X" in tmpl else xs[:1]):
                 if "falsy-contains" in disabled and (" contains X" in tmpl or "X in " in tmpl):
                     continue
+                if tmpl in NEVER_EVALUATED:
+                    for m in ("sync", "async"):
+                        yield {"kind": "probe", "src": tmpl.replace("X", x), "mode": m, "no_raise": True}
+                    continue
                 yield {"kind": "probe", "src": tmpl.replace("X", x), "mode": "sync"}
-                if tier == "thorough":
+                if tier == "thorough" or " and " in tmpl or " or " in tmpl:
                     yield {"kind": "probe", "src": tmpl.replace("X", x), "mode": "async"}
 
     def enumerated_is_exhaustive(self, tier: str) -> bool:
@@ -368,7 +386,7 @@ class C16(Prop):
         res = Result()
         if case.get("kind") == "probe":
             return self._check_variants(res, case["src"], dict(PROBE_PARTIALS), [("probe", dict(PROBE_DATA))],
-                                        case["mode"], probe=True)
+                                        case["mode"], probe=True, no_raise=bool(case.get("no_raise")))
         prog = case["prog"]
         src = to_source(prog["main"], case["layout"])
         templates = {k: to_source(v, case["layout"]) for k, v in prog["templates"].items()}
@@ -389,7 +407,8 @@ class C16(Prop):
         return self._check_variants(res, src, templates, variants, mode, probe=False)
 
     def _check_variants(self, res: Result, src: str, templates: dict[str, str],
-                        variants: list[tuple[str, dict[str, Any]]], mode: str, *, probe: bool) -> Result:  # noqa: PLR0912
+                        variants: list[tuple[str, dict[str, Any]]], mode: str, *, probe: bool,
+                        no_raise: bool = False) -> Result:  # noqa: PLR0912
         res.evaluations = 0
         try:
             for label, d in variants:
@@ -419,6 +438,11 @@ class C16(Prop):
                             res.fail("spurious-undefined", f"undefined-created-for-existing-path:{pol}",
                                      f"{label}: path {path!r} exists in scope but resolved to undefined; src={src!r}")
                             return res
+                    if out[0] == "err" and out[1] == "UndefinedError" and no_raise:
+                        res.fail("raises-without-undefined", f"UndefinedError-for-operand-never-evaluated:{pol}",
+                                 f"{label} ({mode}): {out!r}, but the missing operand sits behind a short-circuit or "
+                                 f"in a branch that is not taken; src={src!r}")
+                        return res
                     if out[0] == "err" and out[1] == "UndefinedError":
                         res.labels.append(f"{pol}:raised")
                         if not created_s:
